@@ -98,6 +98,16 @@ def handle0 : Handler := fun input impl =>
       let v := judgeIsolate o
       (if v == "ok" then mobs else "-", if v != "ok" then v else (extraConc okv).getD "ok")
     | _, _ => ("-", (extraConc okv).getD s!"fail:crash:unparsable observation {impl.take 120}")
+  | "pools" =>
+    match lookup okv "sent" with
+    | some sent =>
+      let tags := (getS kv "tags").splitOn ";"
+      let order := getS kv "order"
+      let par := getS kv "par" == "1"
+      let v := judgePools tags order par (sent.splitOn ";")
+      let mobs := s!"sent={";".intercalate (poolsExpected tags order par)}"
+      (if v == "ok" then mobs else "-", if v != "ok" then v else (extraConc okv).getD "ok")
+    | none => ("-", (extraConc okv).getD s!"fail:crash:unparsable observation {impl.take 120}")
   | "handover" =>
     match getN? okv "shots", getN? okv "reports", lookup okv "words" with
     | some sh, some rp, some ws =>
